@@ -1,5 +1,6 @@
 import Heathcliff.Proofs.C16B
 import Heathcliff.Proofs.C16C
+import Heathcliff.Proofs.GenRng6
 
 /- C16: seeded expansion is reproducible, draws are fresh, samples are well-formed.
    Property theorems only; proofs are the helper lemmas of Heathcliff/Proofs/C16*.lean.
@@ -188,5 +189,200 @@ theorem mask_deterministic (U : Uniform) (xof : Xof) (P : Parms) (f f' : Factory
     on `use_random_seed = true` -/
 theorem fixed_seed_factory_repeats (seed : Seed) (ent : Entropy) (w w' : Nat) :
     ((Factory.fromSeed seed).getRng ent w).1.seed = ((Factory.fromSeed seed).getRng ent w').1.seed := rfl
+
+
+/-! ## (e) THE CODE ITSELF (translator phase 4j): `Gen/RngFns.lean` is generated on every run from src/util/random_generator.rs
+    (`BlakeRNG::refill_buffer`, `next_u32`, `next_u64`, `fill_bytes`), src/util/basic.rs (`hamming_weight`) and src/util/rlwe.rs
+    (`sample::centered_binomial`, `ternary`, `uniform`) by tools/rs2lean_rng.py; the generated functions equal the model the theorems
+    above are about.  `ofSt s` = the model state as the generated `struct BlakeRNG`, `xofL xof` = the block function as byte lists.
+    `SizedXof` / `SizedSt`: the buffer is a `[u8; BUFFER_SIZE]` (facts of the Rust types, not of values). -/
+section generated
+open HC.GenRng
+
+/-- `refill_buffer` = `refill` (every state) -/
+theorem gen_refill_buffer_eq (xof : Xof) (s : St) : GenRng.refill_buffer (xofL xof) (ofSt s) = .ok (ofSt (refill xof s)) :=
+  gn_refill_buffer_eq xof s
+
+/-- `next_u32` = `nextU32` for every state with `pos ≤ BUFFER_SIZE`: the checked `usize` additions do not trap, the raw-pointer read
+    (rendered as a bounds-checked little-endian read: out of bounds would be undefined behaviour) stays inside the buffer -/
+theorem gen_next_u32_eq {xof : Xof} (hx : SizedXof xof) (s : St) (hs : SizedSt s) (hp : s.pos ≤ BUF) :
+    GenRng.next_u32 (xofL xof) (ofSt s) = .ok (ofSt (nextU32 xof s).2, (nextU32 xof s).1) := gn_next_u32_eq hx s hs hp
+
+theorem gen_next_u64_eq {xof : Xof} (hx : SizedXof xof) (s : St) (hs : SizedSt s) (hp : s.pos ≤ BUF) :
+    GenRng.next_u64 (xofL xof) (ofSt s) = .ok (ofSt (nextU64 xof s).2, (nextU64 xof s).1) := gn_next_u64_eq hx s hs hp
+
+/-- `fill_bytes(dest)` = `fillBytes` for `dest.len()` bytes, from EVERY state (any cursor, also beyond the buffer), whatever `dest` held;
+    the `while` loop needs at most `dest.len()` iterations (the fuel `dest.len() + 1` of the translation is never exhausted) -/
+theorem gen_fill_bytes_eq {xof : Xof} (hx : SizedXof xof) (s : St) (hs : SizedSt s) (dest : List Nat) (hd : dest.length < 2^64) :
+    GenRng.fill_bytes (xofL xof) (ofSt s) dest = .ok (ofSt (fillBytes xof s dest.length).2, (fillBytes xof s dest.length).1) :=
+  gn_fill_bytes_eq hx s hs dest hd
+
+/-- the invariants are kept by every operation (so the equalities chain over any sequence of calls) -/
+theorem gen_invariants_kept {xof : Xof} (hx : SizedXof xof) (s : St) (hs : GenInv s) (o : Op) (ho : OpOK o) :
+    GenInv (step xof s o).2 := (gs_genStep_eq hx s hs o ho).2
+
+example (seed : Seed) : GenInv (fromSeed seed) := genInv_fromSeed seed
+example : SizedXof (fun _ _ => Array.replicate BUF 7) := fun _ _ => by simp
+
+/-- `util::hamming_weight` (checked `i32` arithmetic) = `hammingWeight` on every byte -/
+theorem gen_hamming_weight_eq : ∀ x, x < 256 → GenRng.hamming_weight x = .ok (Int.ofNat (hammingWeight x)) := gn_hamming_weight_eq
+
+/-- SOURCE TO MATHEMATICS, generator: every interleaving of the three GENERATED functions on a freshly seeded generator returns the
+    cursor semantics over the stream `xof seed 0 ++ xof seed 1 ++ …` (composition with `generator_is_stream_cursor`) -/
+theorem gen_generator_is_stream_cursor {xof : Xof} (hx : SizedXof xof) (seed : Seed) (ops : List Op) (hops : ∀ o ∈ ops, OpOK o) :
+    ∃ g, gs_genRun (xofL xof) (ofSt (fromSeed seed)) ops = .ok ((cursorRun xof seed 0 ops).1, g) := gs_genRun_cursor hx seed ops hops
+
+/-- … and from ANY reachable state they return what the model's `run` returns -/
+theorem gen_run_eq {xof : Xof} (hx : SizedXof xof) (ops : List Op) (s : St) (hs : GenInv s) (hops : ∀ o ∈ ops, OpOK o) :
+    gs_genRun (xofL xof) (ofSt s) ops = .ok ((run xof s ops).1, ofSt (run xof s ops).2) := gs_genRun_eq hx ops s hs hops
+
+example : ∀ o ∈ [Op.fill 5, Op.u32, Op.fill 4090, Op.u64], OpOK o := by
+  intro o ho
+  simp only [List.mem_cons, List.not_mem_nil, or_false] at ho
+  rcases ho with rfl | rfl | rfl | rfl <;> simp [OpOK]
+
+/-- chunking law on the GENERATED `fill_bytes` (composition with `fill_bytes_split`) -/
+theorem gen_fill_bytes_split {xof : Xof} (hx : SizedXof xof) (s : St) (hs : SizedSt s) (d1 d2 : List Nat) (hd : (d1 ++ d2).length < 2^64) :
+    ∃ g1 o1 g2 o2, GenRng.fill_bytes (xofL xof) (ofSt s) d1 = .ok (g1, o1) ∧ GenRng.fill_bytes (xofL xof) g1 d2 = .ok (g2, o2) ∧
+      GenRng.fill_bytes (xofL xof) (ofSt s) (d1 ++ d2) = .ok (g2, o1 ++ o2) := gs_fill_bytes_split hx s hs d1 d2 hd
+
+/-- from a fresh seed the generated `fill_bytes` writes the prefix of the stream (composition with `fill_bytes_stream`) -/
+theorem gen_fill_bytes_stream {xof : Xof} (hx : SizedXof xof) (seed : Seed) (dest : List Nat) (hd : dest.length < 2^64) :
+    ∃ g, GenRng.fill_bytes (xofL xof) (ofSt (fromSeed seed)) dest = .ok (g, streamSlice xof seed 0 dest.length) :=
+  gs_fill_bytes_stream hx seed dest hd
+
+/-- the `cbd` closure of `centered_binomial` run on the generated `BlakeRNG` (6 bytes from the generated `fill_bytes`, the masks, six
+    generated `hamming_weight`s, five checked `i32` operations) = `cbdValue` of the model's draw … -/
+theorem gen_cbd_closure_eq (U : Uniform) {xof : Xof} (hx : SizedXof xof) (hbx : ByteXof xof) (s : St) (hs : SizedSt s) (hbs : ByteSt s) :
+    GenRng.centered_binomial_closure1 (blakeOps U xof) (ofSt s) = .ok (ofSt (fillBytes xof s 6).2, cbdValue (fillBytes xof s 6).1) :=
+  gs_cbd_closure U hx hbx s hs hbs
+
+/-- … hence lies in `[-21, 21]` (composition with `cbd_bound`) -/
+theorem gen_cbd_bound (U : Uniform) {xof : Xof} (hx : SizedXof xof) (hbx : ByteXof xof) (s : St) (hs : SizedSt s) (hbs : ByteSt s) :
+    ∃ g v, GenRng.centered_binomial_closure1 (blakeOps U xof) (ofSt s) = .ok (g, v) ∧ -21 ≤ v ∧ v ≤ 21 :=
+  gs_cbd_closure_bound U hx hbx s hs hbs
+
+/-- generated `centered_binomial` = model, laid out flat (position `i + j·n`), for ANY old contents of the destination -/
+theorem gen_centered_binomial_eq (U : Uniform) {xof : Xof} (hx : SizedXof xof) (hbx : ByteXof xof) (s : St) (hs : SizedSt s) (hbs : ByteSt s)
+    (n : Nat) (moduli dest : List Nat) (hd : dest.length = moduli.length * n) (hB : moduli.length * n < B64)
+    (c : List (List Nat)) (s' : St) (h : centeredBinomial xof s n moduli = .ok (c, s')) :
+    GenRng.centered_binomial (blakeOps U xof) (ofSt s) moduli n dest = .ok (ofSt s', flatCM moduli.length n c) :=
+  gs_centered_binomial_fwd U hx hbx s hs hbs n moduli dest hd hB c s' h
+
+/-- SOURCE TO MATHEMATICS, error samples: on moduli `q_j ≥ 2` the generated `centered_binomial` NEVER PANICS, and there are `n` values
+    `|v_i| ≤ 21` with `v_i mod q_j` at position `i + j·n` of the destination (composition with `error_rns_consistent`, `cbd_bound`) -/
+theorem gen_centered_binomial_source_to_math (U : Uniform) {xof : Xof} (hx : SizedXof xof) (hbx : ByteXof xof) (s : St) (hs : SizedSt s)
+    (hbs : ByteSt s) (n : Nat) (moduli dest : List Nat) (hd : dest.length = moduli.length * n) (hB : moduli.length * n < B64)
+    (hq : ∀ q ∈ moduli, 2 ≤ q) :
+    ∃ (vs : List Int) (s' : St), vs.length = n ∧ (∀ v ∈ vs, -21 ≤ v ∧ v ≤ 21) ∧ ByteSt s' ∧
+      centeredBinomial xof s n moduli = .ok (moduli.map (fun (q : Nat) => vs.map fun v => (v % (q : Int)).toNat), s') ∧
+      GenRng.centered_binomial (blakeOps U xof) (ofSt s) moduli n dest =
+        .ok (ofSt s', flatCM moduli.length n (moduli.map fun (q : Nat) => vs.map fun v => (v % (q : Int)).toNat)) :=
+  gs_centered_binomial_math U hx hbx s hs hbs n moduli dest hd hB hq
+
+/-- the layout: component `j`, coefficient `i` at `i + j·n` -/
+theorem flat_layout (k n : Nat) (c : List (List Nat)) {i j : Nat} (hi : i < n) (hj : j < k) :
+    (flatCM k n c).getD (i + j * n) 0 = (c.getD j []).getD i 0 := gs_flatCM_get k n c hi hj
+
+-- non-vacuity of the shape hypotheses: two moduli (one below the error bound), degree 2, a dirty destination
+example : ([9, 9, 9, 9] : List Nat).length = ([5, 13] : List Nat).length * 2 ∧ ([5, 13] : List Nat).length * 2 < B64 ∧ ∀ q ∈ ([5, 13] : List Nat), 2 ≤ q := by
+  decide
+
+/-- generated `ternary` = model (whenever the model's draws succeed), hence `v_i mod q_j`, `v_i ∈ {-1,0,1}` (composition with `ternary_rns_consistent`) -/
+theorem gen_ternary_source_to_math (U : Uniform) (hU : U.Contract) {xof : Xof} (hbx : ByteXof xof) (s : St) (hbs : ByteSt s)
+    (n : Nat) (moduli dest : List Nat) (hd : dest.length = moduli.length * n) (hB : moduli.length * n < B64) (hq : ∀ q ∈ moduli, 2 ≤ q)
+    (c : List (List Nat)) (s' : St) (h : Rng.ternary U xof s n moduli = .ok (c, s')) :
+    ∃ vs : List Int, vs.length = n ∧ (∀ v ∈ vs, -1 ≤ v ∧ v ≤ 1) ∧
+      GenRng.ternary (blakeOps U xof) (ofSt s) moduli n dest =
+        .ok (ofSt s', flatCM moduli.length n (moduli.map fun (q : Nat) => vs.map fun v => (v % (q : Int)).toNat)) :=
+  gs_ternary_math U hU hbx s hbs n moduli dest hd hB hq c s' h
+
+/-- … without any assumption on `Uniform` or the moduli: whatever the model returns, the generated code returns -/
+theorem gen_ternary_eq (U : Uniform) (xof : Xof) (s : St) (n : Nat) (moduli dest : List Nat)
+    (hd : dest.length = moduli.length * n) (hB : moduli.length * n < B64)
+    (c : List (List Nat)) (s' : St) (h : Rng.ternary U xof s n moduli = .ok (c, s')) :
+    GenRng.ternary (blakeOps U xof) (ofSt s) moduli n dest = .ok (ofSt s', flatCM moduli.length n c) :=
+  gs_ternary_fwd U xof s n moduli dest hd hB c s' h
+
+/-- generated `uniform` = model (whenever the model's draws succeed), coefficients of component `j` below `q_j` (composition with `uniform_below_modulus`) -/
+theorem gen_uniform_source_to_math (U : Uniform) (hU : U.Contract) {xof : Xof} (hbx : ByteXof xof) (s : St) (hbs : ByteSt s)
+    (n : Nat) (moduli dest : List Nat) (hd : dest.length = moduli.length * n) (hB : moduli.length * n < B64) (hq : ∀ q ∈ moduli, q ≤ 2^64)
+    (c : List (List Nat)) (s' : St) (h : uniformPoly U xof s n moduli = .ok (c, s')) :
+    GenRng.uniform (blakeOps U xof) (ofSt s) moduli n dest = .ok (ofSt s', flatCM moduli.length n c) ∧ AllBelow n moduli c :=
+  gs_uniform_math U hU hbx s hbs n moduli dest hd hB hq c s' h
+
+/-- `SeedableRng::from_seed` = `fromSeed` (so "a freshly seeded generator" in the statements above is the generated constructor's result) -/
+theorem gen_from_seed_eq (seed : Seed) : GenRng.from_seed seed = .ok (ofSt (fromSeed seed)) := gn_from_seed_eq seed
+
+/-- EQUALITY ON SUCCESS, both directions: the generated `centered_binomial` returns `(g', d')` iff the model returns a polynomial `c` and a
+    state `s'` with `g' = ofSt s'`, `d' = flat c` — generated code and model succeed on exactly the same inputs, with the same result
+    (in particular: whenever one of them fails, so does the other) -/
+theorem gen_centered_binomial_iff (U : Uniform) {xof : Xof} (hx : SizedXof xof) (hbx : ByteXof xof) (s : St) (hs : SizedSt s) (hbs : ByteSt s)
+    (n : Nat) (moduli dest : List Nat) (hd : dest.length = moduli.length * n) (hB : moduli.length * n < B64) (g' : BlakeRNG) (d' : List Nat) :
+    GenRng.centered_binomial (blakeOps U xof) (ofSt s) moduli n dest = .ok (g', d') ↔
+      ∃ c s', centeredBinomial xof s n moduli = .ok (c, s') ∧ g' = ofSt s' ∧ d' = flatCM moduli.length n c :=
+  gs_centered_binomial_iff U hx hbx s hs hbs n moduli dest hd hB g' d'
+
+/-- the same for `ternary`: no assumption on `Uniform`, the moduli or the generator state (the code draws and encodes coefficient by
+    coefficient, the model draws first and encodes afterwards: they still succeed together) -/
+theorem gen_ternary_iff (U : Uniform) (xof : Xof) (s : St) (n : Nat) (moduli dest : List Nat)
+    (hd : dest.length = moduli.length * n) (hB : moduli.length * n < B64) (g' : BlakeRNG) (d' : List Nat) :
+    GenRng.ternary (blakeOps U xof) (ofSt s) moduli n dest = .ok (g', d') ↔
+      ∃ c s', Rng.ternary U xof s n moduli = .ok (c, s') ∧ g' = ofSt s' ∧ d' = flatCM moduli.length n c :=
+  gs_ternary_iff U xof s n moduli dest hd hB g' d'
+
+/-- the same for `uniform` -/
+theorem gen_uniform_iff (U : Uniform) (xof : Xof) (s : St) (n : Nat) (moduli dest : List Nat)
+    (hd : dest.length = moduli.length * n) (hB : moduli.length * n < B64) (g' : BlakeRNG) (d' : List Nat) :
+    GenRng.uniform (blakeOps U xof) (ofSt s) moduli n dest = .ok (g', d') ↔
+      ∃ c s', uniformPoly U xof s n moduli = .ok (c, s') ∧ g' = ofSt s' ∧ d' = flatCM moduli.length n c :=
+  gs_uniform_iff U xof s n moduli dest hd hB g' d'
+
+/-- `Ciphertext::contains_seed` (skeleton over the flat buffer `data` = c0 ++ c1; `n` = degree, `k` = number of moduli of the ciphertext):
+    `size == 2 && c1[0] == CIPHERTEXT_SEED_FLAG` -/
+theorem gen_contains_seed_eq (data : List Nat) (n k : Nat) (hn : 0 < n) (hk : 0 < k) (hlen : data.length = 2 * (n * k)) (hB : 2 * (n * k) < B64) :
+    GenRng.contains_seed data 2 n k = .ok (decide (data.getD (n * k) 0 = gs_FLAG)) ∧
+    (∀ size, size ≠ 2 → GenRng.contains_seed data size n k = .ok false) :=
+  ⟨gs_contains_seed_eq data n k hn hk hlen hB, fun size hs => gs_contains_seed_size data size n k hs⟩
+
+example : gs_FLAG = Gen.CIPHERTEXT_SEED_FLAG := rfl
+
+/-- `Ciphertext::expand_seed` (skeleton; `seedBytes` = little-endian bytes of the 8 words after the flag word `data[n·k]`): on a flagged
+    size-2 ciphertext whose polynomials have AT LEAST 9 WORDS, c0 is kept and c1 becomes `sample::uniform` drawn from
+    `BlakeRNG::from_seed(seedBytes)` -/
+theorem gen_expand_seed_eq (U : Uniform) (xof : Xof) (data moduli : List Nat) (n k : Nat) (hk : moduli.length = k)
+    (hlen : data.length = 2 * (n * k)) (hflag : data.getD (n * k) 0 = gs_FLAG) (h9 : 9 ≤ n * k) (hB : 2 * (n * k) < B64)
+    (c : List (List Nat)) (s' : St) (h : uniformPoly U xof (fromSeed (gs_seedBytes data (n * k))) n moduli = .ok (c, s')) :
+    GenRng.expand_seed (blakeOps U xof) data 2 n k moduli n = .ok (data.take (n * k) ++ flatCM k n c) :=
+  gs_expand_seed_eq U xof data moduli n k hk hlen hflag h9 hB c s' h
+
+/-- the hypothesis `9 ≤ n·k` of the previous theorem is NOT a technicality: below it (N = 4 or 8 with one prime, N = 4 with two, N = 2 with
+    up to four) the raw-pointer read of the seed LEAVES THE BUFFER - `.error .oob` is the translation's rendering of undefined behaviour.
+    (`symmetric_with_c1_prng` never stores a seed there, but `expand_seed` / `deserialize_full` do not check.  Observed on the real code,
+    notes/work7-R.md: one byte string deserializes to different ciphertexts.) -/
+theorem gen_expand_seed_oob (B : RngOps BlakeRNG) (data qs : List Nat) (pn n k : Nat) (hn : 0 < n) (hk : 0 < k)
+    (hlen : data.length = 2 * (n * k)) (hflag : data.getD (n * k) 0 = gs_FLAG) (h9 : n * k < 9) :
+    GenRng.expand_seed B data 2 n k qs pn = .error .oob := gs_expand_seed_oob B data qs pn n k hn hk hlen hflag h9
+
+example : (0 : Nat) < 4 ∧ (0 : Nat) < 1 ∧ ([11, 12, 13, 14, 18446744073709551615, 1, 2, 3] : List Nat).length = 2 * (4 * 1) ∧
+    ([11, 12, 13, 14, 18446744073709551615, 1, 2, 3] : List Nat).getD (4 * 1) 0 = gs_FLAG ∧ 4 * 1 < 9 := by decide
+
+/-- a size-2 ciphertext that is not flagged is refused -/
+theorem gen_expand_seed_refuses (B : RngOps BlakeRNG) (data qs : List Nat) (pn n k : Nat) (hn : 0 < n) (hk : 0 < k)
+    (hlen : data.length = 2 * (n * k)) (hB : 2 * (n * k) < B64) (hflag : data.getD (n * k) 0 ≠ gs_FLAG) :
+    GenRng.expand_seed B data 2 n k qs pn = .error .refused := gs_expand_seed_refuses B data qs pn n k hn hk hlen hB hflag
+
+/-- tie to `Model/Encrypt.lean`: what `expandSeed` returns for the seeded ciphertext `(c0, seedBytes)` at level `l` is what the generated
+    function writes over polynomial 1 -/
+theorem gen_expand_seed_model (U : Uniform) (xof : Xof) (l : Level) (data : List Nat) (c0 : RnsPoly) (ntt : Bool) (cf : Nat)
+    (hlen : data.length = 2 * (l.n * l.qs.size)) (hflag : data.getD (l.n * l.qs.size) 0 = gs_FLAG) (h9 : 9 ≤ l.n * l.qs.size)
+    (hB : 2 * (l.n * l.qs.size) < B64) (ct : Ct)
+    (h : expandSeed U xof l ⟨c0, gs_seedBytes data (l.n * l.qs.size), ntt, cf⟩ = .ok ct) :
+    ∃ c : List (List Nat), ct.polys = #[c0, toRns c] ∧
+      GenRng.expand_seed (blakeOps U xof) data 2 l.n l.qs.size (l.qs.toList.map (·.value)) l.n =
+        .ok (data.take (l.n * l.qs.size) ++ flatCM l.qs.size l.n c) :=
+  gs_expand_seed_model U xof l data c0 ntt cf hlen hflag h9 hB ct h
+
+end generated
 
 end HC.C16
